@@ -135,6 +135,8 @@ class PduIgnoredForDestReason(enum.IntEnum):
     FIRST_PACKET_IN_ACKED_MODE_NOT_METADATA_NOT_EOF_NOT_FD = 2
     """For the acknowledged mode, the first packet that was received with
     no metadata received previously was not a File Data PDU or EOF PDU."""
+    METADATA_FILE_NAME_NOT_DECODABLE = 3
+    """A file name of the Metadata PDU is not valid UTF-8 and can not be used as a path."""
 
 
 class PduIgnoredForDest(Exception):
